@@ -46,6 +46,8 @@ def run(ctx):
     ctx.run_rule("PB", r_cbudget.rule_PB)
     import r_round
     ctx.run_rule("R1cv", r_round.rule_R1_cvec)
+    ctx.run_rule("XNc", r_round.rule_XN_c)
+    ctx.run_rule("HNc", r_round.rule_HN_c)
     import r_asmsym
     ctx.run_rule("R1asm1", r_asmsym.rule_R1asm_single)
     ctx.run_rule("R1asmH", r_asmsym.rule_R1asm_hash)
